@@ -283,3 +283,50 @@ Theorem builder_study_tiling_plumbing :
       SCall "return" [SName "self"] [] ].
 Proof. split; [exact prepare_study_tiling_plumbing | exact tile_base_as_study_plumbing]. Qed.
 Print Assumptions builder_study_tiling_plumbing.
+
+(* ------------------------------------------------------------------ *)
+(* Which image is tiled: ImageLoader.create_from_args and the crop of load_pil (Model/LoaderArgs.v;
+   toasty/image.py:439-477, 499-511).  An accepted --crop is (top, right, bottom, left), the one- and
+   two-value forms symmetric (V,H: V rows off top and bottom, H columns off each side); anything
+   else is rejected; the options go into the new loader and the class defaults stay as they were
+   (every tile a later cascade reads is loaded by a plain ImageLoader()).  The real classmethod is
+   compared with [create_from_args] by harness/corr_C08.py (loader_args_part), class attributes
+   before and after included.  Proofs in Proofs/LoaderArgsP.v. *)
+From Coq Require Import ZArith.
+From Toasty Require Import Model.LoaderArgs Proofs.LoaderArgsP.
+Local Open Scope Z_scope.
+
+Theorem crop_option_is_top_right_bottom_left :
+  forall l c : list Z, expand_crop l = Some c ->
+  List.length c = 4%nat /\ Forall (fun x => 0 <= x) c /\
+  (forall v, l = [v] -> c = [v; v; v; v]) /\
+  (forall v h, l = [v; h] -> c = [v; h; v; h]) /\
+  (List.length l = 4%nat -> c = l).
+Proof. exact expand_crop_shape. Qed.
+Print Assumptions crop_option_is_top_right_bottom_left.
+
+Theorem crop_option_rejects_the_rest :
+  forall l : list Z,
+  (exists x, In x l /\ x < 0) \/ (List.length l <> 1 /\ List.length l <> 2 /\ List.length l <> 4)%nat -> expand_crop l = None.
+Proof. exact expand_crop_rejects. Qed.
+Print Assumptions crop_option_rejects_the_rest.
+
+Theorem crop_two_values_region :
+  forall (w h v hh : Z) (c : list Z), expand_crop [v; hh] = Some c ->
+  crop_box w h c = (hh, v, w - hh, h - v) /\ cropped_size w h c = (w - 2 * hh, h - 2 * v).
+Proof. exact crop_two_values. Qed.
+Print Assumptions crop_two_values_region.
+
+Theorem loader_options_do_not_touch_the_class :
+  forall (cls : loader_opts) b2t csp psd crop new cls',
+  create_from_args cls b2t csp psd crop = Some (new, cls') ->
+  cls' = cls /\ lo_b2t new = b2t /\ lo_csp new = csp /\ lo_psd new = psd /\
+  (crop = None -> lo_crop new = lo_crop cls) /\
+  (forall l, crop = Some l -> lo_crop new = expand_crop l).
+Proof. exact create_from_args_leaves_class. Qed.
+Print Assumptions loader_options_do_not_touch_the_class.
+
+Example crop_nonvacuous :
+  expand_crop [3; 20] = Some [3; 20; 3; 20] /\ cropped_size 300 280 [3; 20; 3; 20] = (260, 274) /\
+  expand_crop [1; 2; 3] = None /\ expand_crop [-1] = None.
+Proof. vm_compute. repeat split. Qed.
